@@ -131,6 +131,25 @@ Theorem c14_renewal_costs_exact : forall base sp cp fs ce ne r c,
 Proof. exact renewal_costs_exact. Qed.
 Print Assumptions c14_renewal_costs_exact.
 
+(** * RHP4 contractor interface: arguments of any shape (empty transaction sets, any number of
+   contracts / resolutions, root lists of any length, any file size and capacity) *)
+Theorem c14_rhp4_no_panic :
+  (forall ntxns nfc ok, add_v2_contract ntxns nfc ok <> Panic) /\
+  (forall ntxns nres a b c d e, renew_v2_contract ntxns nres a b c d e <> Panic) /\
+  (forall s q, snd (revise_v2_contract s q) <> Panic).
+Proof. exact (conj add_v2_contract_no_panic (conj renew_v2_contract_no_panic revise_v2_contract_no_panic)). Qed.
+Print Assumptions c14_rhp4_no_panic.
+
+Theorem c14_rhp4_rejected_unchanged : forall s q s' e, revise_v2_contract s q = (s', Err e) -> s' = s.
+Proof. exact revise_v2_contract_rejected. Qed.
+Print Assumptions c14_rhp4_rejected_unchanged.
+
+Theorem c14_rhp4_accepted_consistent : forall s q s',
+  revise_v2_contract s q = (s', Ok tt) ->
+  rroots s' = r4Roots q /\ r4Filesize q = SectorSize * nroots (r4Roots q) /\ r4Filesize q <= r4Capacity q.
+Proof. exact revise_v2_contract_accepted. Qed.
+Print Assumptions c14_rhp4_accepted_consistent.
+
 (** * the unpatched checks (Legacy.v): each site is reachable with a panic.
    Full statement "no input panics" is FALSE for the HEAD logic at these sites. *)
 Theorem c14_head_accessors_refuted :
